@@ -345,6 +345,64 @@ theorem server_ignores_seed_packet {α : Type} (ops : GoRand.NumOps α) (sha256 
   rw [h]
   exact ⟨rfl, rfl⟩
 
+/-- **After adoption every subsequent sample — including those of a burst in progress — uses the
+    adopted table.**  The sampler reads the connection's *current* distributions at every draw.
+    Let `A` hold of the sampler states reached once the seed packet has been processed (closed
+    under further draws) and let `T` be the adopted length table.  Then resuming the paranoid
+    loop from ANY intermediate point of a burst (any buffered length, frames and writes so far) in
+    such a state, every write added from there on is exactly a sample of `T`. -/
+theorem inflight_burst_uses_adopted_table {σ : Type} (S : Sampler σ) (hS : LenBounded S)
+    (A : σ → Prop) (T : Nat → Prop)
+    (hlen : ∀ s t s', A s → S.len s = some (t, s') → T t ∧ A s')
+    (hiat : ∀ s d s', A s → S.iat s = some (d, s') → A s') :
+    ∀ (fuel buf : Nat) (fr : List Nat) (ws : List Wr) (ds : List Nat) (s : σ), A s →
+      ∀ w ∈ (paranoidLoop S true fuel buf fr ws ds s).writes,
+        w ∈ ws ∨ (∃ t, w.sample = some t ∧ T t ∧ w.size = t) := by
+  intro fuel
+  induction fuel with
+  | zero => intro buf fr ws ds s _ w hw; exact Or.inl hw
+  | succ f ih =>
+    intro buf fr ws ds s hA w hw
+    by_cases hb : buf = 0
+    · subst hb
+      rw [paranoidLoop_done] at hw
+      exact Or.inl hw
+    · cases hl : S.len s with
+      | none =>
+        rw [paranoidLoop_none S true f buf hb fr ws ds s hl] at hw
+        exact Or.inl hw
+      | some q =>
+        obtain ⟨t, s1⟩ := q
+        rw [paranoidLoop_some S true f buf hb fr ws ds s t s1 hl] at hw
+        obtain ⟨hT, hA1⟩ := hlen s t s1 hA hl
+        have ht := hS s t s1 hl
+        rcases paranoidStep_spec buf t (by omega) ht with
+          ⟨_, hst⟩ | ⟨_, _, hst⟩ | ⟨_, _, hst⟩ | ⟨_, _, hst⟩
+        · rw [hst] at hw; exact ih buf fr ws ds s1 hA1 w hw
+        · rw [hst] at hw
+          cases hi : S.iat s1 with
+          | none => simp only [hi] at hw; exact Or.inl hw
+          | some q2 =>
+            obtain ⟨d, s2⟩ := q2
+            simp only [hi] at hw
+            rcases ih _ _ _ _ s2 (hiat s1 d s2 hA1 hi) w hw with h | h
+            · rcases List.mem_append.mp h with h | h
+              · exact Or.inl h
+              · simp at h; subst h; exact Or.inr ⟨t, rfl, hT, rfl⟩
+            · exact Or.inr h
+        · rw [hst] at hw
+          cases hi : S.iat s1 with
+          | none => simp only [hi] at hw; exact Or.inl hw
+          | some q2 =>
+            obtain ⟨d, s2⟩ := q2
+            simp only [hi] at hw
+            rcases ih _ _ _ _ s2 (hiat s1 d s2 hA1 hi) w hw with h | h
+            · rcases List.mem_append.mp h with h | h
+              · exact Or.inl h
+              · simp at h; subst h; exact Or.inr ⟨t, rfl, hT, rfl⟩
+            · exact Or.inr h
+        · rw [hst] at hw; exact ih _ _ ws ds s1 hA1 w hw
+
 /-- **Connections are independent.**  Adopting a bridge's seed on one client connection does not
     change the seeds (hence the length / IAT tables) of any other live connection, and gives
     connection `i` exactly the seeds of its own bridge. -/
